@@ -225,6 +225,8 @@ def gen_uv(rng, shape):
             a, s = rng.choice([0, 90, 180, 270]), rng.uniform(1, 20)  # along an axis
         elif k < 0.15:
             a, s = 0.0, 0.0  # calm
+        elif k < 0.25:
+            a, s = rng.uniform(0, 360), rng.choice([0.004, 0.008, 0.05])  # nearly calm: the direction is still defined
         else:
             a, s = rng.uniform(0, 360), rng.uniform(0.1, 30)
         u.append(s * math.cos(math.radians(a)))
@@ -279,8 +281,12 @@ def build_wwm(rng, big):
         meta["dpt"] = np.array([[rng.uniform(1, 5000) for _ in range(ns)] for _ in range(nt)])
         dv["DEP"] = (("ocean_time", "nbstation"), meta["dpt"])
     coords = dict(ocean_time=np.arange(nt) * np.timedelta64(1, "h") + np.datetime64("2020-01-01"))
+    indexed = rng.random() < 0.3
+    if indexed:
+        # the spectral dimensions carry index coordinates 0..n-1 (what xarray adds when a file is re-saved with them)
+        coords.update(nfreq=np.arange(nf), ndir=np.arange(nd))
     ds = xr.Dataset(dv, coords=coords)
-    meta["tags"] = (order_k + ":" + ("full" if full else "sector") + ":" + rangek, fk, dtype, "wind" if wind else "nowind",
+    meta["tags"] = (order_k + ":" + ("full" if full else "sector") + ":" + rangek + (":indexed" if indexed else ""), fk, dtype, "wind" if wind else "nowind",
                     "absent:" + "+".join(absent) if absent else "allkeys", "perm" if order != can else "canon")
     meta["dropped"] = ["SPSIG", "SPDIR", "Uwind", "Vwind"]
     return ds, meta
